@@ -253,7 +253,7 @@ ORACLES = {'C17/greedy-valid': oracle, 'C17/exhaustive': oracle}
 def pipeline_case(draw):
     return {'k': draw(st.integers(3, 6)), 'rows_per_batch': draw(st.sampled_from([30, 60, 120])), 'batches': draw(st.integers(2, 3)),
             'seed': draw(st.integers(0, 2**32 - 1)), 'dup': draw(st.booleans()),
-            'order': draw(st.sampled_from([1, 2]))}
+            'order': draw(st.sampled_from([1, 2])), 'lookalike': draw(st.booleans())}
 
 
 def oracle_pipeline(case, rec):
@@ -283,6 +283,10 @@ def oracle_pipeline(case, rec):
         cols[f'f{j}'] = col
     if case['dup'] and k >= 2:
         cols['f1'] = cols['f0'].copy()                                                              # exact duplicate: ties
+    if case.get('lookalike'):
+        # ordinary feature names that merely contain the relation marker's letters (BRAND_REL ...) are ordinary features
+        ren = {'f0': 'BRAND_REL', 'f2': 'AND_RELATED', 'f3': 'xAND_RELy'}
+        cols = {ren.get(k, k): v for k, v in cols.items()}
     names = list(cols) + ['label']
     tmp = tempfile.mkdtemp(prefix='c17-')
     old = os.getcwd()
@@ -295,7 +299,7 @@ def oracle_pipeline(case, rec):
             w.writerow(names)
             for i in range(n):
                 w.writerow([f'v{int(cols[c][i])}' for c in cols] + [str(int(label[i]))])
-        args = stubs.make_args(task='ranking', heuristic='MI-numba-3mr', minibatch_size=int(case['rows_per_batch']), subsampling=1,
+        args = stubs.make_args(task='ranking', heuristic='MI-numba-3mr', minibatch_size=n, subsampling=1,
                                data_path=os.path.join(tmp, 'data'), data_source='csv-raw', output_folder=os.path.join(tmp, 'out'),
                                include_cardinality_in_feature_names='False', target_ranking_only='True',
                                interaction_order=int(case.get('order', 1)))
@@ -314,8 +318,17 @@ def oracle_pipeline(case, rec):
         tr.Pool = orig_pool
         os.chdir(old)
         shutil.rmtree(tmp, ignore_errors=True)
+    # one batch only (minibatch_size = n): the task builds its dictionaries from the per-batch rows in arrival order (a later batch
+    # overwrites an earlier one) while pairwise_ranks.tsv is sorted by score, so with several batches the file does not determine
+    # the dictionaries; with one batch every pair has exactly one row and the rebuild below is exact
     REL = ' AND_REL '
     relv, rela, redu = {}, {}, {}
+    seen = set()
+    for a, b in zip(trip.FeatureA, trip.FeatureB):
+        if (a, b) in seen:
+            rec.cls('excluded:several-rows-per-pair')
+            return
+        seen.add((a, b))
     for a, b, sc in zip(trip.FeatureA, trip.FeatureB, trip.Score):
         sc = float(sc)
         if b == 'label' and a != 'label':
